@@ -1,6 +1,7 @@
 """C05 -- CPU occupancy (DESIGN §4 C05, App. A.1)."""
 from .. import mgen
 from ..framework import result
+from .. import world as W
 
 ID = "C05"
 LEVEL = "exploration"
@@ -62,7 +63,9 @@ def cross_check(case, w, m, tdir, pvts, verdict, info):
             if th.label_at(x.row, 4, t) == "Running":
                 lab = th.label_at(x.row, 6, t)
                 cnt[lab] = cnt.get(lab, 0) + 1
+        cnt = {W.name_key(k): v for k, v in cnt.items()}
         for row, name in names.items():
+            name = W.name_key(name)
             if cpu.at(row, 3, t) != cnt.get(name, 0):
                 return result(False, "cpu-thread-rows-disagree", None,
                               "at t=%d cpu row %d (%s) reports %d running threads, thread rows say %d"
